@@ -17,7 +17,7 @@ RULE = ("segment tables of 1..6 chromosomes x 1..30 segments with gaps, cn in 0.
         "directly and (b) through do_call with an ordered list of distinct filters (<=1 of ci/sem) x method {threshold, clonal, none}. "
         "Distinct by table fingerprint; non-trivial when some run has >= 2 segments.")
 ASSUMPTIONS = [
-    "runs touching rows with missing allele-specific cn are judged on conservation only ('equal allele-specific cn' is undefined there)",
+    "tables with missing allele-specific cn: neighbours that share the level and both lack allele-specific cn must merge, neighbours differing in level or in known allele-specific cn must not, a segment without next to one with allele-specific cn is left open; plus the conservation clauses",
     "when allele-specific columns exist every filter's level includes (cn1, cn2), as the cn filter's does in the statement",
     "with zero total weight the plain mean of log2 is the expected value",
     "sem/ci boundaries are generated with exact zeros or a margin >= 1e-6 (no float ties at log2 +- 1.96*sem = 0)",
